@@ -909,3 +909,722 @@ def validate_spec_on_vectors(verbose=False):
             f.pop("case", None)
             print("  FAIL", json.dumps(f)[:600])
     return rep
+
+
+# ================================================================================================
+# generators
+# ================================================================================================
+STATS = {"eval": 0, "eval_ok": 0, "spend": 0, "spend_ok": 0, "lax_region_diffs_in_main_stream": 0}
+LAX_STATS = {"cases": 0, "agree": 0, "differ": 0, "crash": 0, "by_variant": {}}
+
+NUMERIC_VALUES = [0, 1, -1, 2, 16, 17, 127, 128, -127, -128, 255, 256, 32767, 32768, -32768, 8388607, 8388608,
+                  2147483647, -2147483647, 2147483648, -2147483648, 4294967295, 549755813887, 549755813888]
+
+
+def numeric_operands():
+    ops = [scriptnum(v) for v in NUMERIC_VALUES]
+    ops += [bytes.fromhex(h) for h in ("80", "0080", "000080", "00000080", "0000000080", "00", "0000", "0100", "0180",
+                                        "7f00", "ff00", "ff80", "ffff00", "01000000", "0100000000", "ffffffff",
+                                        "ffffffff7f", "ffffffffff", "000000000000", "010000000000", "8000", "0081")]
+    seen, out = set(), []
+    for o in ops:
+        if o not in seen:
+            seen.add(o)
+            out.append(o)
+    return out
+
+
+NUM_OPERANDS = numeric_operands()
+PUSH_LENGTHS = [0, 1, 2, 3, 20, 32, 33, 65, 74, 75, 76, 77, 254, 255, 256, 257, 519, 520, 521, 522]
+
+
+def push_form(d: bytes, form: str) -> bytes:
+    n = len(d)
+    if form == "min":
+        return push_min(d)
+    if form == "direct" and n < 0x4C:
+        return bytes([n]) + d
+    if form == "pd1" and n <= 0xFF:
+        return b"\x4c" + bytes([n]) + d
+    if form == "pd2" and n <= 0xFFFF:
+        return b"\x4d" + n.to_bytes(2, "little") + d
+    if form == "pd4":
+        return b"\x4e" + n.to_bytes(4, "little") + d
+    return push_raw(d)
+
+
+def rand_bytes(rng, n):
+    return bytes(rng.getrandbits(8) for _ in range(n))
+
+
+def rand_push(rng):
+    r = rng.random()
+    if r < 0.55:
+        d = rng.choice(NUM_OPERANDS)
+    elif r < 0.75:
+        d = rand_bytes(rng, rng.randint(0, 6))
+    elif r < 0.9:
+        d = rand_bytes(rng, rng.choice(PUSH_LENGTHS))
+    else:
+        d = rand_bytes(rng, rng.randint(0, 80))
+    f = rng.random()
+    form = "min" if f < 0.6 else rng.choice(["direct", "pd1", "pd2", "pd4"])
+    return push_form(d, form)
+
+
+# (inputs, outputs) for stack-depth-aware generation; -1 = special
+ARITY = {0x61: (0, 0), 0x69: (1, 0), 0x6B: (1, 0), 0x6D: (2, 0), 0x6E: (2, 4), 0x6F: (3, 6), 0x70: (4, 6),
+         0x71: (6, 6), 0x72: (4, 4), 0x73: (1, 1), 0x74: (0, 1), 0x75: (1, 0), 0x76: (1, 2), 0x77: (2, 1),
+         0x78: (2, 3), 0x79: (2, 2), 0x7A: (2, 1), 0x7B: (3, 3), 0x7C: (2, 2), 0x7D: (2, 3), 0x82: (1, 2),
+         0x87: (2, 1), 0x88: (2, 0), 0x8B: (1, 1), 0x8C: (1, 1), 0x8F: (1, 1), 0x90: (1, 1), 0x91: (1, 1),
+         0x92: (1, 1), 0x93: (2, 1), 0x94: (2, 1), 0x9A: (2, 1), 0x9B: (2, 1), 0x9C: (2, 1), 0x9D: (2, 0),
+         0x9E: (2, 1), 0x9F: (2, 1), 0xA0: (2, 1), 0xA1: (2, 1), 0xA2: (2, 1), 0xA3: (2, 1), 0xA4: (2, 1),
+         0xA5: (3, 1), 0xA6: (1, 1), 0xA7: (1, 1), 0xA8: (1, 1), 0xA9: (1, 1), 0xAA: (1, 1), 0xAB: (0, 0),
+         0xAC: (2, 1), 0xAD: (2, 0), 0xB0: (0, 0), 0xB1: (1, 1), 0xB2: (1, 1), 0xB3: (0, 0), 0xB9: (0, 0),
+         0x4F: (0, 1), 0x51: (0, 1), 0x52: (0, 1), 0x60: (0, 1), 0x6C: (0, 1)}
+GOOD_OPS = sorted(ARITY)
+
+
+def gen_seq(rng, n, depth, nest):
+    """grammar-based sequence; returns (bytes, new approximate depth)"""
+    out = bytearray()
+    for _ in range(n):
+        r = rng.random()
+        if r < 0.38:
+            out += rand_push(rng)
+            depth += 1
+        elif r < 0.80:
+            if rng.random() < 0.88:
+                cands = [o for o in GOOD_OPS if ARITY[o][0] <= depth]
+                op = rng.choice(cands)
+                depth += ARITY[op][1] - ARITY[op][0]
+            else:
+                op = rng.getrandbits(8)
+                if op <= 0x4E and op != 0:
+                    out += rand_push(rng)
+                    depth += 1
+                    continue
+            out.append(op)
+        elif r < 0.93 and nest < 4:
+            # conditional block, balanced or not
+            style = rng.random()
+            if style < 0.7 or depth == 0:
+                out += rng.choice([b"\x00", b"\x51", b"\x51", push_form(rng.choice(NUM_OPERANDS), "min")])
+            else:
+                depth -= 1
+            out.append(rng.choice([0x63, 0x64]))
+            a, d1 = gen_seq(rng, rng.randint(0, 4), depth, nest + 1)
+            out += a
+            q = rng.random()
+            if q < 0.5:
+                out.append(0x67)
+                b, d1 = gen_seq(rng, rng.randint(0, 4), depth, nest + 1)
+                out += b
+                if rng.random() < 0.08:
+                    out.append(0x67)          # second ELSE (legal in Core)
+                    out += gen_seq(rng, rng.randint(0, 2), depth, nest + 1)[0]
+            if rng.random() < 0.92:
+                out.append(0x68)
+            if rng.random() < 0.03:
+                out.append(rng.choice([0x67, 0x68]))   # stray ELSE / ENDIF
+            depth = d1
+        else:
+            # multisig-shaped fragment with garbage keys / signatures
+            nk = rng.choice([0, 0, 1, 2, 3, 20, 21])
+            ns = rng.randint(0, min(nk, 3)) if rng.random() < 0.9 else nk + 1
+            out += rng.choice([b"\x00", b"\x51", b"\x01\x00"])
+            for _i in range(ns):
+                out += rng.choice([b"\x00", push_raw(rand_bytes(rng, rng.choice([1, 9, 71, 72])))])
+            out += push_int(ns)
+            for _i in range(nk):
+                out += rng.choice([push_raw(rand_bytes(rng, 33)), b"\x00", push_raw(b"\x02" + rand_bytes(rng, 32))])
+            out += push_int(nk)
+            out.append(rng.choice([0xAE, 0xAE, 0xAF]))
+            depth = max(0, depth) + (1 if out[-1] == 0xAE else 0)
+        depth = max(depth, 0)
+    return bytes(out), depth
+
+
+def rand_tx(rng, n_in=None, n_out=None):
+    n_in = n_in or rng.choice([1, 1, 2, 3])
+    n_out = rng.choice([1, 1, 2, 3]) if n_out is None else n_out
+    version = rng.choice([1, 1, 2, 2, 0, 3, 0xFFFFFFFF, 0x80000000])
+    locktime = rng.choice([0, 1, 100, 499999999, 500000000, 500000001, 0xFFFFFFFF, rng.getrandbits(32)])
+    vin = []
+    for _ in range(n_in):
+        seq = rng.choice([0xFFFFFFFF, 0xFFFFFFFE, 0, 1, 10, 0x80000000, 0x80000001, 0x00400000, 0x00400005,
+                          0x0000FFFF, rng.getrandbits(32)])
+        vin.append([b"\x11" + rand_bytes(rng, 31), rng.choice([0, 1, 5, 0xFFFFFFFF]), b"", seq, []])
+    vout = [[rng.choice([0, 1, 5000, 21 * 10 ** 14]), rand_bytes(rng, rng.choice([0, 1, 25]))] for _ in range(n_out)]
+    return SynTx(version, vin, vout, locktime)
+
+
+CORE6_EVAL = ["MINIMALDATA", "DISCOURAGE_UPGRADABLE_NOPS", "CHECKLOCKTIMEVERIFY", "CHECKSEQUENCEVERIFY", "MINIMALIF", "NULLDUMMY"]
+CORE6_SIG = ["STRICTENC", "DERSIG", "LOW_S", "NULLFAIL", "NULLDUMMY", "WITNESS_PUBKEYTYPE"]
+CORE6_SPEND = ["P2SH", "WITNESS", "CLEANSTACK", "SIGPUSHONLY", "DISCOURAGE_UPGRADABLE_WITNESS_PROGRAM", "MINIMALIF"]
+
+
+def subset(core, i):
+    v = 0
+    for k, n in enumerate(core):
+        if (i >> k) & 1:
+            v |= FL[n]
+    return v
+
+
+def rand_flags(rng):
+    v = 0
+    p = rng.choice([0.15, 0.5, 0.85])
+    for n in FLAG_NAMES:
+        if rng.random() < p:
+            v |= FL[n]
+    return close_flags(v)
+
+
+def flag_sets(rng, i, core):
+    """the i-th subset of the 6-flag core (all 64 are visited as i runs) and a random closed subset of all 16"""
+    return [close_flags(subset(core, i % 64)), rand_flags(rng)]
+
+
+# ---- eval-level case streams ------------------------------------------------------------------
+def opcode_sweep(rng, tier):
+    """every one of the 256 opcode values, live and in dead branches, on several stacks and flag sets"""
+    stacks = [[], [b"\x01"], [b"\x02", b"\x03", b"\x01", b"\x01"], [b"", b"", b"", b""],
+              [b"\x05", b"\x04", b"\x03", b"\x02", b"\x01", b"\x01"], [b"\x81", b"\x00", b"\x80"]]
+    flagsets = [0, close_flags(ALL_FLAGS), FL["MINIMALDATA"],
+                FL["DISCOURAGE_UPGRADABLE_NOPS"] | FL["CHECKLOCKTIMEVERIFY"] | FL["CHECKSEQUENCEVERIFY"],
+                FL["CHECKLOCKTIMEVERIFY"] | FL["CHECKSEQUENCEVERIFY"] | FL["MINIMALIF"] | FL["NULLDUMMY"]]
+    tx = SynTx(2, [[b"\x11" * 32, 0, b"", 5, []]], [[0, b""]], 10)
+    for op in range(256):
+        if op == 0:
+            body = b"\x00"
+        elif op < 0x4C:
+            body = bytes([op]) + bytes([op]) * op
+        elif op == 0x4C:
+            body = b"\x4c\x03abc"
+        elif op == 0x4D:
+            body = b"\x4d\x03\x00abc"
+        elif op == 0x4E:
+            body = b"\x4e\x03\x00\x00\x00abc"
+        else:
+            body = bytes([op])
+        ctxs = [("live", body), ("dead_if", b"\x00\x63" + body + b"\x68"), ("dead_else", b"\x51\x63\x67" + body + b"\x68"),
+                ("dead_nested", b"\x00\x63\x51\x63" + body + b"\x68\x68"), ("live_if", b"\x51\x63" + body + b"\x68"),
+                ("dead_notif", b"\x51\x64" + body + b"\x67\x68"), ("after", body + b"\x51")]
+        for cname, script in ctxs:
+            for si, st in enumerate(stacks):
+                if tier == "quick" and cname not in ("live", "dead_if") and si not in (2, 4):
+                    continue
+                for fi, fl in enumerate(flagsets):
+                    if tier == "quick" and fi >= 2 and not (0xB0 <= op <= 0xB9 or op in (0x63, 0x64, 0xAE, 0xAF) or op <= 0x60):
+                        continue
+                    for sv in ("B", "W"):
+                        if sv == "W" and op not in (0x63, 0x64, 0xAC, 0xAD, 0xAE, 0xAF, 0xAB):
+                            continue
+                        yield EvalCase(fl, sv, script, st, tx, 0, 0, "opsweep/%02x/%s" % (op, cname))
+
+
+UNARY = [0x8B, 0x8C, 0x8F, 0x90, 0x91, 0x92, 0x69, 0x73, 0x63, 0x64, 0xB1, 0xB2, 0x79, 0x7A, 0x82, 0x76]
+BINARY = [0x93, 0x94, 0x9A, 0x9B, 0x9C, 0x9D, 0x9E, 0x9F, 0xA0, 0xA1, 0xA2, 0xA3, 0xA4, 0x87, 0x88]
+
+
+def numeric_sweep(rng, tier):
+    """operands of 0..6 bytes incl. negative zero and non-minimal forms through every numeric consumer"""
+    txs = [SynTx(2, [[b"\x11" * 32, 0, b"", 0x10, []]], [[0, b""]], 0x100),
+           SynTx(1, [[b"\x11" * 32, 0, b"", 0xFFFFFFFF, []]], [[0, b""]], 500000001),
+           SynTx(0xFFFFFFFF, [[b"\x11" * 32, 0, b"", 0x00400010, []]], [[0, b""]], 0xFFFFFFFF)]
+    lock_flags = FL["CHECKLOCKTIMEVERIFY"] | FL["CHECKSEQUENCEVERIFY"]
+    for op in UNARY:
+        for d in NUM_OPERANDS:
+            for md in (0, FL["MINIMALDATA"]):
+                script = bytes([op]) + (b"\x68" if op in (0x63, 0x64) else b"")
+                base = [b"\x07", b"\x08", b"\x09"]
+                for ti, tx in enumerate(txs if op in (0xB1, 0xB2) else txs[:1]):
+                    fl = md | (lock_flags if op in (0xB1, 0xB2) else 0)
+                    yield EvalCase(fl, "B", script, base + [d], tx, 0, 0, "num1/%02x" % op)
+                    if op in (0x63, 0x64):
+                        yield EvalCase(fl | FL["MINIMALIF"], "W", script, base + [d], tx, 0, 0, "num1w/%02x" % op)
+                        yield EvalCase(fl | FL["MINIMALIF"], "B", script, base + [d], tx, 0, 0, "num1b/%02x" % op)
+    small = [d for d in NUM_OPERANDS if len(d) <= 5][::2] if tier == "quick" else NUM_OPERANDS
+    for op in BINARY:
+        for a in small:
+            for b in small:
+                for md in (0, FL["MINIMALDATA"]):
+                    yield EvalCase(md, "B", bytes([op]), [a, b], None, 0, 0, "num2/%02x" % op)
+    tri = [d for d in NUM_OPERANDS if len(d) <= 5][::3]
+    for a in tri:
+        for b in tri:
+            for c in tri:
+                yield EvalCase(rng.choice([0, FL["MINIMALDATA"]]), "B", b"\xa5", [a, b, c], None, 0, 0, "within")
+    # the two counts of CHECKMULTISIG
+    for d in NUM_OPERANDS:
+        for md in (0, FL["MINIMALDATA"]):
+            yield EvalCase(md, "B", b"\xae", [b"", b"", d], None, 0, 0, "cms_nkeys")
+            yield EvalCase(md, "B", b"\xae", [b"", d, b"\x02" * 33, b"\x01"], None, 0, 0, "cms_nsigs")
+            yield EvalCase(md, "B", b"\xae", [b"", b"", b"", d, b"\x02" * 33, b"\x02" * 33, b"\x02" * 33, b"\x03"], None, 0, 0, "cms_nsigs3")
+
+
+def push_sweep(rng, tier):
+    for n in PUSH_LENGTHS + [65535, 65536]:
+        d = bytes([0x41 + (n % 7)]) * n
+        for form in ("direct", "pd1", "pd2", "pd4"):
+            s = push_form(d, form)
+            if form != "pd4" and s == push_form(d, "pd4"):
+                continue
+            for md in (0, FL["MINIMALDATA"]):
+                yield EvalCase(md, "B", s, [], None, 0, 0, "push/%d/%s" % (n, form))
+                yield EvalCase(md, "B", b"\x00\x63" + s + b"\x68", [], None, 0, 0, "push_dead/%d/%s" % (n, form))
+                if n <= 600:
+                    for cut in sorted({1, 2, 3, 5, len(s) - 1}):
+                        if 0 < cut < len(s):
+                            yield EvalCase(md, "B", s[:cut], [], None, 0, 0, "push_trunc/%d/%s/%d" % (n, form, cut))
+                            yield EvalCase(md, "B", b"\x00\x63" + s[:cut], [], None, 0, 0, "push_trunc_dead")
+    # one-byte values under the minimal rule, every byte
+    for v in range(256):
+        for form in ("direct", "pd1"):
+            yield EvalCase(FL["MINIMALDATA"], "B", push_form(bytes([v]), form), [], None, 0, 0, "push1/%02x" % v)
+
+
+def limit_cases(rng, tier):
+    NOP, IF, ENDIF = b"\x61", b"\x63", b"\x68"
+    # op count
+    for k in (199, 200, 201, 202, 203):
+        yield EvalCase(0, "B", NOP * k, [], None, 0, 0, "opcount/nop/%d" % k)
+        yield EvalCase(0, "B", b"\x00" + IF + NOP * (k - 2) + ENDIF, [], None, 0, 0, "opcount/dead/%d" % k)
+        yield EvalCase(0, "B", b"\x00" + IF + b"\x50" * 50 + NOP * (k - 2) + ENDIF, [], None, 0, 0, "opcount/dead_reserved/%d" % k)
+        yield EvalCase(0, "B", b"\x51" * 300 + NOP * k, [], None, 0, 0, "opcount/with_op1/%d" % k)
+        yield EvalCase(0, "B", NOP * (k - 1) + b"\x62", [], None, 0, 0, "opcount/then_ver/%d" % k)
+        yield EvalCase(0, "B", NOP * (k - 1) + b"\x6a", [], None, 0, 0, "opcount/then_return/%d" % k)
+        yield EvalCase(0, "B", NOP * (k - 1) + b"\x95", [], None, 0, 0, "opcount/then_disabled/%d" % k)
+        yield EvalCase(0, "B", b"\x00" + IF + NOP * (k - 3) + b"\x65" + ENDIF, [], None, 0, 0, "opcount/dead_verif/%d" % k)
+    # CHECKMULTISIG adds the key count
+    key = b"\x02" + b"\x77" * 32
+    for nk in (0, 1, 19, 20):
+        for total in (200, 201, 202):
+            k = total - 1 - nk
+            script = NOP * k + b"\x00\x00" + push_raw(key) * nk + push_int(nk) + b"\xae"
+            yield EvalCase(0, "B", script, [], None, 0, 0, "opcount/cms/%d/%d" % (nk, total))
+            yield EvalCase(0, "B", NOP * k + b"\x00" + IF + b"\xae" + ENDIF, [], None, 0, 0, "opcount/cms_dead/%d/%d" % (nk, total))
+            # the count is added before the depth checks: not enough keys on the stack
+            yield EvalCase(0, "B", NOP * k + push_int(nk) + b"\xae", [], None, 0, 0, "opcount/cms_short/%d/%d" % (nk, total))
+    # stack + altstack items
+    for total in (999, 1000, 1001, 1002):
+        yield EvalCase(0, "B", b"\x51" * total, [], None, 0, 0, "stack/push/%d" % total)
+        yield EvalCase(0, "B", b"", [b"\x01"] * total, None, 0, 0, "stack/initial/%d" % total)
+        yield EvalCase(0, "B", b"\x61", [b"\x01"] * total, None, 0, 0, "stack/initial_nop/%d" % total)
+        yield EvalCase(0, "B", b"\x75", [b"\x01"] * total, None, 0, 0, "stack/initial_drop/%d" % total)
+        yield EvalCase(0, "B", b"\x6b" * 100 + b"\x51" * (total - 900), [b"\x01"] * 900, None, 0, 0, "stack/alt/%d" % total)
+        yield EvalCase(0, "B", b"\x6b" * 100 + b"\x51" * (total - 900) + b"\x6c" * 100, [b"\x01"] * 900, None, 0, 0, "stack/alt_back/%d" % total)
+        yield EvalCase(0, "B", b"\x6f", [b"\x01"] * (total - 3), None, 0, 0, "stack/3dup/%d" % total)
+        yield EvalCase(0, "B", b"\x6f\x6d\x75", [b"\x01"] * (total - 3), None, 0, 0, "stack/3dup_then_drop/%d" % total)
+        yield EvalCase(0, "B", b"\x00\x63" + b"\x51" * 5 + b"\x68", [b"\x01"] * total, None, 0, 0, "stack/dead/%d" % total)
+        yield EvalCase(0, "B", b"\x51" * (total - 1) + b"\x76\x75", [], None, 0, 0, "stack/dup_drop/%d" % total)
+    # script size
+    chunk = push_raw(b"\x5a" * 520) + b"\x75"
+    for size in (9999, 10000, 10001, 10002):
+        body = chunk * 19
+        pad = size - len(body)
+        fill = push_raw(b"\x33" * (pad - 3 - 1)) + b"\x75" if pad > 80 else b"\x61" * pad
+        script = body + fill
+        script += b"\x61" * (size - len(script))
+        yield EvalCase(0, "B", script[:size], [], None, 0, 0, "scriptsize/%d" % size)
+        yield EvalCase(0, "B", (b"\x51\x75" * 5001)[:size], [], None, 0, 0, "scriptsize/op1drop/%d" % size)
+        yield EvalCase(0, "B", b"\x00" * size, [], None, 0, 0, "scriptsize/op0/%d" % size)
+
+
+def conditional_sweep(rng, tier):
+    """every sequence over {0, 1, IF, NOTIF, ELSE, ENDIF} up to length 5 (6 in thorough): balanced and unbalanced"""
+    import itertools
+    alpha = [b"\x00", b"\x51", b"\x63", b"\x64", b"\x67", b"\x68"]
+    maxlen = 6 if tier == "thorough" else 5
+    i = 0
+    for n in range(0, maxlen + 1):
+        for seq in itertools.product(alpha, repeat=n):
+            s = b"".join(seq)
+            i += 1
+            yield EvalCase(0, "B", s, [], None, 0, 0, "cond")
+            if i % 7 == 0:
+                yield EvalCase(FL["MINIMALIF"], "W", s + b"\x51", [b"\x02"], None, 0, 0, "cond_w")
+    # deep nesting
+    for d in (1, 50, 100, 101, 150):
+        yield EvalCase(0, "B", b"\x51\x63" * d + b"\x68" * d, [], None, 0, 0, "cond_deep/%d" % d)
+        yield EvalCase(0, "B", b"\x00\x63" + b"\x63" * d + b"\x67" * 3 + b"\x68" * d + b"\x68", [], None, 0, 0, "cond_deep_dead/%d" % d)
+
+
+def random_scripts(rng, tier):
+    n = 3000 if tier == "quick" else 60000
+    for i in range(n):
+        script, _ = gen_seq(rng, rng.randint(1, 12), 0, 0)
+        st = [rng.choice(NUM_OPERANDS) for _ in range(rng.choice([0, 0, 1, 2, 4]))]
+        tx = rand_tx(rng) if rng.random() < 0.3 else None
+        nin = rng.randrange(len(tx.vin)) if tx else 0
+        for fl in flag_sets(rng, i, CORE6_EVAL):
+            sv = "W" if rng.random() < 0.25 else "B"
+            yield EvalCase(fl, sv, script, st, tx, nin, rng.choice([0, 1, 10 ** 8]), "random")
+    # raw byte soup
+    for i in range(n // 3):
+        script = rand_bytes(rng, rng.randint(1, 10))
+        yield EvalCase(rand_flags(rng), rng.choice("BBW"), script, [b"\x01", b"\x02"], None, 0, 0, "soup")
+
+
+def eval_cases(rng, tier):
+    for g in (opcode_sweep, numeric_sweep, push_sweep, limit_cases, conditional_sweep, random_scripts):
+        for c in g(rng, tier):
+            yield c
+
+
+# ---- keys, signatures ---------------------------------------------------------------------------
+SECRETS = [0x1111111111111111111111111111111111111111111111111111111111111111 * k % N_ORDER + k for k in range(1, 24)]
+_PUBS = {}
+
+
+def pub(i):
+    if i not in _PUBS:
+        x, y = _G * SECRETS[i]
+        _PUBS[i] = (int(x), int(y))
+    return _PUBS[i]
+
+
+def sec(i, form="c"):
+    x, y = pub(i)
+    xb, yb = x.to_bytes(32, "big"), y.to_bytes(32, "big")
+    if form == "c":
+        return bytes([2 + (y & 1)]) + xb
+    if form == "u":
+        return b"\x04" + xb + yb
+    if form == "h":                      # hybrid, matching parity: usable, but not STRICTENC
+        return bytes([6 + (y & 1)]) + xb + yb
+    if form == "hbad":                   # hybrid with the wrong parity: unusable
+        return bytes([7 - (y & 1)]) + xb + yb
+    if form == "cbadprefix":             # 33 bytes with prefix 05
+        return b"\x05" + xb
+    if form == "xoverflow":              # x >= p
+        return b"\x02" + (P + 1).to_bytes(32, "big")
+    if form == "offcurve":
+        return b"\x04" + xb + ((y + 1) % P).to_bytes(32, "big")
+    if form == "short":
+        return bytes([2 + (y & 1)]) + xb[:31]
+    if form == "empty":
+        return b""
+    raise ValueError(form)
+
+
+def der_int(v: int) -> bytes:
+    b = v.to_bytes((v.bit_length() + 7) // 8 or 1, "big")
+    if b[0] & 0x80:
+        b = b"\x00" + b
+    return b"\x02" + bytes([len(b)]) + b
+
+
+def der_sig(r: int, s: int) -> bytes:
+    body = der_int(r) + der_int(s)
+    return b"\x30" + bytes([len(body)]) + body
+
+
+STRICT_VARIANTS = ["valid", "valid", "valid", "high_s", "wrong_key", "wrong_msg", "empty", "undefined_hashtype",
+                   "s_ge_n", "r_ge_n", "zero_s"]
+LAX_VARIANTS = ["pad_r", "pad_s", "neg_r", "long_len", "trailing", "seq_len_wrong", "neg_s_highbit", "garbage_after_r",
+                "only_header", "int_len_zero", "long_form_zero_len"]
+
+
+def make_sig(rng, digest_f, key_i, hashtype, variant):
+    """digest_f(hashtype) -> 32-byte digest; returns the signature blob (DER ‖ hashtype)"""
+    if variant == "empty":
+        return b""
+    if variant == "undefined_hashtype":
+        hashtype = rng.choice([0, 4, 0x80, 0x84, 0x41, 0x7F, 0xFF, 0x05])
+    e = int.from_bytes(digest_f(hashtype), "big")
+    if variant == "wrong_msg":
+        e ^= 1
+    k = SECRETS[(key_i + 1) % len(SECRETS)] if variant == "wrong_key" else SECRETS[key_i]
+    r, s = _G.sign(k, e)
+    s = min(s, N_ORDER - s)
+    ht = bytes([hashtype])
+    if variant == "high_s":
+        s = N_ORDER - s
+    if variant == "s_ge_n":
+        return der_sig(r, N_ORDER + rng.choice([0, 1, 5])) + ht
+    if variant == "r_ge_n":
+        return der_sig(N_ORDER + rng.choice([0, 1]), (N_ORDER - s) if rng.random() < 0.5 else s) + ht
+    if variant == "zero_s":
+        return der_sig(r, 0) + ht
+    good = der_sig(r, s)
+    if variant in ("valid", "high_s", "wrong_key", "wrong_msg", "undefined_hashtype"):
+        return good + ht
+    # ---- lax-only shapes (verify under Core's lax parser, or at least parse) ----
+    ri, si = der_int(r), der_int(s)
+    if variant == "pad_r":
+        ri = b"\x02" + bytes([ri[1] + 1]) + b"\x00" + ri[2:]
+    elif variant == "pad_s":
+        si = b"\x02" + bytes([si[1] + 2]) + b"\x00\x00" + si[2:]
+    elif variant == "neg_r":                 # strip a needed leading zero: "negative" r, OpenSSL-style positive
+        if ri[2] == 0:
+            ri = b"\x02" + bytes([ri[1] - 1]) + ri[3:]
+    elif variant == "neg_s_highbit":         # use the high s without its leading zero
+        hs = (N_ORDER - s).to_bytes(32, "big")
+        si = b"\x02\x20" + hs
+    elif variant == "long_len":
+        body = ri + si
+        return b"\x30\x81" + bytes([len(body)]) + body + ht
+    elif variant == "long_form_zero_len":
+        body = ri + si
+        return b"\x30\x80" + body + ht
+    elif variant == "trailing":
+        body = ri + si
+        return b"\x30" + bytes([len(body)]) + body + rand_bytes(rng, rng.randint(1, 3)) + ht
+    elif variant == "seq_len_wrong":
+        body = ri + si
+        return b"\x30" + bytes([(len(body) + rng.choice([1, -1, 5])) & 0x7F]) + body + ht
+    elif variant == "garbage_after_r":
+        return b"\x30\x45" + ri + b"\x03" + si[1:] + ht
+    elif variant == "only_header":
+        return rng.choice([b"\x30", b"\x30\x01", b"\x30\x00", b"\x30\x02\x02", b"\x30\x03\x02\x01", b"\x30\x81", b"\x30\x06\x02\x81",
+                           b"\x30\x06\x02\x01\x01\x02", b"\x30\x06\x02\x01\x01\x02\x81"]) + ht
+    elif variant == "int_len_zero":
+        return b"\x30\x04\x02\x00\x02\x00" + ht
+    body = ri + si
+    return b"\x30" + bytes([len(body)]) + body + ht
+
+
+# ---- spend-level templates ----------------------------------------------------------------------
+def _digest_f(tx, nin, amount, code, sv):
+    if sv == "W":
+        return lambda ht: sighash_bip143(code, tx, nin, ht, amount)
+    return lambda ht: sighash_legacy(code, tx, nin, ht)
+
+
+HASHTYPES = [1, 1, 1, 2, 3, 0x81, 0x82, 0x83]
+PK_FORMS = ["c", "c", "c", "u", "u", "h", "hbad", "cbadprefix", "xoverflow", "offcurve", "short", "empty"]
+SPEND_KINDS = ["p2pk", "p2pk_not", "p2pkh", "ms", "ms_not", "p2sh_p2pk", "p2sh_ms", "p2sh_codesep", "p2wpkh", "p2wsh_p2pk",
+               "p2wsh_ms", "p2wsh_codesep", "p2wsh_if", "p2wsh_big", "p2wsh_items", "p2sh_p2wpkh", "p2sh_p2wsh", "future",
+               "p2sh_future", "cltv", "csv", "nonstandard", "p2sh_nonstandard", "p2wsh_nonstandard"]
+TWEAKS = ["none"] * 8 + ["sig_nop", "sig_extra_push", "sig_pushdata1", "sig_nonempty", "unexpected_witness", "program_mismatch",
+                         "drop_witness_item", "extra_witness_item", "sig_nonpush", "wrong_redeem", "sig_op_reserved",
+                         "empty_witness", "sig_dup_push"]
+
+
+def multisig_script(m, keys):
+    return push_int(m) + b"".join(push_raw(k) for k in keys) + push_int(len(keys)) + b"\xae"
+
+
+def build_spend(rng, kind, variants, flags, tweak, lax=False):
+    """returns a SpendCase with real signatures (made with my own Core-style digests)"""
+    tx = rand_tx(rng)
+    nin = rng.randrange(len(tx.vin))
+    if rng.random() < 0.15 and len(tx.vout) > 1:
+        tx.vout = tx.vout[:1]           # SIGHASH_SINGLE without a matching output
+    amount = rng.choice([0, 1, 12345, 10 ** 8, 21 * 10 ** 14])
+    vi = iter(variants * 40)
+
+    def S(code, sv, key_i, ht=None):
+        return make_sig(rng, _digest_f(tx, nin, amount, code, sv), key_i, ht if ht is not None else rng.choice(HASHTYPES), next(vi))
+
+    pkform = rng.choice(PK_FORMS) if rng.random() < 0.45 else "c"
+    ssig, wit, spk = b"", [], b""
+    P_ = push_raw
+    if kind in ("p2pk", "p2pk_not"):
+        spk = P_(sec(0, pkform)) + b"\xac" + (b"\x91" if kind == "p2pk_not" else b"")
+        ssig = P_(S(spk, "B", 0))
+    elif kind == "p2pkh":
+        k = sec(1, pkform)
+        spk = b"\x76\xa9" + P_(hash160(k)) + b"\x88\xac"
+        ssig = P_(S(spk, "B", 1)) + P_(k)
+    elif kind in ("ms", "ms_not", "p2sh_ms", "p2wsh_ms"):
+        n = rng.choice([1, 2, 3, 3, 5, 16, 20])
+        m = rng.randint(1, min(n, 4)) if rng.random() < 0.9 else rng.choice([0, n])
+        forms = [rng.choice(PK_FORMS) if rng.random() < 0.15 else ("c" if kind == "p2wsh_ms" or rng.random() < 0.7 else "u") for _ in range(n)]
+        keys = [sec(i, forms[i]) for i in range(n)]
+        script = multisig_script(m, keys) + (b"\x91" if kind == "ms_not" else b"")
+        sv = "W" if kind == "p2wsh_ms" else "B"
+        signers = sorted(rng.sample(range(n), m))
+        order = rng.random()
+        if order < 0.12 and m > 1:
+            signers = signers[::-1]          # wrong order: must fail
+        sigs = [S(script, sv, i) for i in signers]
+        dummy = rng.choice([b"", b"", b"", b"\x00", b"\x01", b"\x51"[0:0] + b"\x80"])
+        if kind in ("ms", "ms_not"):
+            spk = script
+            ssig = push_form(dummy, "direct" if dummy else "min") + b"".join(P_(s) for s in sigs)
+        elif kind == "p2sh_ms":
+            spk = b"\xa9\x14" + hash160(script) + b"\x87"
+            ssig = push_form(dummy, "direct" if dummy else "min") + b"".join(P_(s) for s in sigs) + P_(script)
+        else:
+            spk = b"\x00\x20" + sha256(script)
+            wit = [dummy] + sigs + [script]
+    elif kind == "p2sh_p2pk":
+        redeem = P_(sec(2, pkform)) + b"\xac"
+        spk = b"\xa9\x14" + hash160(redeem) + b"\x87"
+        ssig = P_(S(redeem, "B", 2)) + P_(redeem)
+    elif kind in ("p2sh_codesep", "p2wsh_codesep"):
+        # <k3> CHECKSIGVERIFY CODESEPARATOR <k4> CHECKSIG [CODESEPARATOR]: two script codes
+        tail = b"\xab" if rng.random() < 0.5 else b""
+        part2 = P_(sec(4, "c")) + b"\xac" + tail
+        script = P_(sec(3, "c")) + b"\xad\xab" + part2
+        sv = "W" if kind == "p2wsh_codesep" else "B"
+        s1 = S(script, sv, 3)
+        s2 = S(part2, sv, 4)
+        if kind == "p2sh_codesep":
+            spk = b"\xa9\x14" + hash160(script) + b"\x87"
+            ssig = P_(s2) + P_(s1) + P_(script)
+        else:
+            spk = b"\x00\x20" + sha256(script)
+            wit = [s2, s1, script]
+    elif kind in ("p2wpkh", "p2sh_p2wpkh"):
+        k = sec(5, pkform)
+        prog = b"\x00\x14" + hash160(k)
+        code = b"\x76\xa9\x14" + hash160(k) + b"\x88\xac"
+        wit = [S(code, "W", 5), k]
+        if kind == "p2wpkh":
+            spk = prog
+        else:
+            spk = b"\xa9\x14" + hash160(prog) + b"\x87"
+            ssig = P_(prog)
+    elif kind in ("p2wsh_p2pk", "p2sh_p2wsh"):
+        script = P_(sec(6, pkform)) + b"\xac"
+        prog = b"\x00\x20" + sha256(script)
+        wit = [S(script, "W", 6), script]
+        if kind == "p2wsh_p2pk":
+            spk = prog
+        else:
+            spk = b"\xa9\x14" + hash160(prog) + b"\x87"
+            ssig = P_(prog)
+    elif kind == "p2wsh_if":
+        # IF <k7> ELSE <k8> ENDIF CHECKSIG, selector of several shapes (MINIMALIF)
+        script = b"\x63" + P_(sec(7, "c")) + b"\x67" + P_(sec(8, "c")) + b"\x68\xac"
+        sel = rng.choice([b"\x01", b"", b"\x02", b"\x00", b"\x01\x00", b"\x80", b"\x01\x01"])
+        truth = any(sel[:-1]) or (len(sel) > 0 and sel[-1] not in (0, 0x80))
+        spk = b"\x00\x20" + sha256(script)
+        wit = [S(script, "W", 7 if truth else 8), sel, script]
+    elif kind == "p2wsh_big":
+        # witness script longer than 520 bytes
+        pad = (P_(b"\x6b" * rng.choice([75, 200, 519, 520])) + b"\x75") * rng.choice([1, 2, 3])
+        script = pad + P_(sec(9, "c")) + b"\xac"
+        spk = b"\x00\x20" + sha256(script)
+        wit = [S(script, "W", 9), script]
+    elif kind == "p2wsh_items":
+        # witness items of 519..521 bytes that the script drops
+        n = rng.choice([519, 520, 521, 522])
+        script = b"\x75" + P_(sec(10, "c")) + b"\xac"
+        spk = b"\x00\x20" + sha256(script)
+        wit = [S(script, "W", 10), b"\x42" * n, script]
+    elif kind in ("future", "p2sh_future"):
+        ver = rng.randint(1, 16)
+        plen = rng.choice([1, 2, 3, 20, 32, 33, 40, 41])
+        prog = bytes([0x50 + ver, plen]) + rand_bytes(rng, plen)
+        if rng.random() < 0.15:
+            prog = bytes([rng.choice([0x4F, 0x50, 0x61])]) + prog[1:]      # not a witness version opcode
+        if rng.random() < 0.1:
+            prog = b"\x00" + prog[1:]                                       # v0 with an odd program length
+        wit = [rand_bytes(rng, rng.choice([0, 1, 520, 521, 600])) for _ in range(rng.randint(0, 3))]
+        if kind == "future":
+            spk = prog
+        else:
+            spk = b"\xa9\x14" + hash160(prog) + b"\x87"
+            ssig = P_(prog)
+    elif kind in ("cltv", "csv"):
+        op = b"\xb1" if kind == "cltv" else b"\xb2"
+        n = rng.choice([0, 1, 10, 100, 499999999, 500000000, 500000001, 0x7FFFFFFF, 0x80000000, 0xFFFFFFFF, 0x00400005, 0x00400000,
+                        0xFFFF, 0x10000, tx.locktime, tx.vin[nin][3], -1, 1 << 39])
+        spk = push_int(n) + op + b"\x75" + P_(sec(11, "c")) + b"\xac"
+        ssig = P_(S(spk, "B", 11))
+    elif kind in ("nonstandard", "p2sh_nonstandard", "p2wsh_nonstandard"):
+        script, _ = gen_seq(rng, rng.randint(1, 8), 2, 0)
+        args = [rng.choice(NUM_OPERANDS) for _ in range(rng.randint(0, 3))]
+        if kind == "nonstandard":
+            spk = script
+            ssig = b"".join(push_form(a, rng.choice(["min", "min", "direct"])) for a in args)
+            if rng.random() < 0.2:
+                ssig += gen_seq(rng, 2, len(args), 0)[0]
+        elif kind == "p2sh_nonstandard":
+            spk = b"\xa9\x14" + hash160(script) + b"\x87"
+            ssig = b"".join(push_min(a) for a in args) + P_(script)
+        else:
+            spk = b"\x00\x20" + sha256(script)
+            wit = args + [script]
+    else:
+        raise ValueError(kind)
+
+    # ---- malleations
+    if tweak == "sig_nop":
+        ssig = b"\x61" + ssig
+    elif tweak == "sig_extra_push":
+        ssig = b"\x51" + ssig
+    elif tweak == "sig_dup_push":
+        ssig = ssig + b"\x76\x75"
+    elif tweak == "sig_op_reserved":
+        ssig = b"\x00\x63\x50\x68" + ssig
+    elif tweak == "sig_pushdata1":
+        # re-encode the last push of the scriptSig with PUSHDATA1
+        pc, last = 0, None
+        while pc < len(ssig):
+            ok, op, d, npc = get_op(ssig, pc)
+            if not ok:
+                break
+            last = (pc, npc, d, op)
+            pc = npc
+        if last and last[3] <= 0x4B and last[3] > 0:
+            ssig = ssig[:last[0]] + b"\x4c" + bytes([len(last[2])]) + last[2]
+    elif tweak == "sig_nonempty" and not ssig:
+        ssig = rng.choice([b"\x00", b"\x51", b"\x61", b"\x01\x00"])
+    elif tweak == "unexpected_witness" and not wit:
+        wit = [rand_bytes(rng, rng.choice([0, 1, 5]))]
+    elif tweak == "program_mismatch" and len(spk) >= 22:
+        spk = spk[:-2] + bytes([spk[-2] ^ 1]) + spk[-1:]
+    elif tweak == "drop_witness_item" and wit:
+        wit = wit[1:]
+    elif tweak == "extra_witness_item" and wit:
+        wit = [rng.choice([b"", b"\x01"])] + wit
+    elif tweak == "empty_witness":
+        wit = []
+    elif tweak == "sig_nonpush" and ssig:
+        ssig = ssig + b"\x61" if rng.random() < 0.5 else b"\x51\x75" + ssig
+    elif tweak == "wrong_redeem" and ssig:
+        ssig = ssig[:-1] + bytes([ssig[-1] ^ 0x01])
+    tx.vin[nin][2] = ssig
+    tx.vin[nin][4] = wit
+    return SpendCase(flags, tx, nin, spk, amount, "%s/%s/%s/%s" % (kind, variants[0], tweak, pkform))
+
+
+def spend_cases(rng, tier):
+    n = 700 if tier == "quick" else 14000
+    i = 0
+    # systematic: every kind x every strict signature variant, untweaked, under a spread of flag sets
+    for kind in SPEND_KINDS:
+        for var in ["valid", "high_s", "wrong_key", "wrong_msg", "empty", "undefined_hashtype", "s_ge_n", "r_ge_n", "zero_s"]:
+            for fl in (0, close_flags(ALL_FLAGS), close_flags(FL["P2SH"] | FL["WITNESS"] | FL["STRICTENC"] | FL["NULLFAIL"]),
+                       FL["P2SH"] | FL["DERSIG"] | FL["LOW_S"] | FL["NULLDUMMY"]):
+                i += 1
+                yield build_spend(rng, kind, [var], fl, "none")
+    for _ in range(n):
+        i += 1
+        kind = rng.choice(SPEND_KINDS)
+        nv = rng.randint(1, 3)
+        variants = [rng.choice(STRICT_VARIANTS) for _ in range(nv)]
+        tweak = rng.choice(TWEAKS)
+        sets = [close_flags(subset(CORE6_SPEND, i % 64) | subset(CORE6_SIG, rng.getrandbits(6))), rand_flags(rng)]
+        st = rng.getstate()
+        for fl in sets:
+            rng.setstate(st)                      # the same spend under both flag sets
+            yield build_spend(rng, kind, variants, fl, tweak)
+
+
+def derived_eval_cases(sp: SpendCase):
+    """the last script of a spend as a single-script case (initial stack = what the pipeline would pass)"""
+    tx, nin = sp.tx, sp.nin
+    ssig, wit = tx.vin[nin][2], tx.vin[nin][4]
+    spk = sp.script_pubkey
+    if len(spk) == 34 and spk[:2] == b"\x00\x20" and wit and sha256(wit[-1]) == spk[2:]:
+        yield EvalCase(sp.flags, "W", wit[-1], wit[:-1], tx, nin, sp.amount, "derived/" + sp.tag)
+    elif len(spk) == 22 and spk[:2] == b"\x00\x14" and len(wit) == 2:
+        yield EvalCase(sp.flags, "W", b"\x76\xa9\x14" + spk[2:] + b"\x88\xac", wit, tx, nin, sp.amount, "derived/" + sp.tag)
+
+
+def lax_cases(rng, tier):
+    """signatures only Core's lax parser accepts, with NONE of DERSIG/LOW_S/STRICTENC set: outside the agreement
+    theorem; differences are counted (informational), never reported as failures"""
+    n = 150 if tier == "quick" else 3000
+    for i in range(n):
+        kind = rng.choice(["p2pk", "p2pk_not", "p2pkh", "ms", "p2sh_ms", "p2wpkh", "p2wsh_ms", "p2wsh_p2pk"])
+        var = LAX_VARIANTS[i % len(LAX_VARIANTS)]
+        fl = rand_flags(rng) & ~DER_FLAGS
+        yield var, build_spend(rng, kind, [var], close_flags(fl), "none", lax=True)
